@@ -159,6 +159,9 @@ func expected(b *Beh, bi *baseInfo, asis bool) (ws []want, term string, termStep
 		}
 		_ = parts
 		acc := want{Ev: "acc", Seq: bi.seq[st.ID], Req: bi.req[st.ID], Kind: st.Kind, step: i}
+		if st.ID == 0 && o != "reject" && o != "none" {
+			o = "reject" // a frame of the adversary's own is never anything else
+		}
 		switch o {
 		case "none", "":
 		case "desync", "panic":
@@ -249,6 +252,8 @@ func (e *emitter) onFrame(f chanpair.Frame) [][]byte {
 		switch st.In {
 		case "drop", "hold":
 			continue
+		case "inject":
+			out = append(out, e.damage(nil, st)...)
 		case "damage":
 			out = append(out, e.damage(append([]byte(nil), e.base[st.ID-1]...), st)...)
 		default: // pass, replay, reorder
@@ -309,6 +314,52 @@ type runResult struct {
 	key    string
 	detail string
 	obs    any
+	trace  []any
+}
+
+// traceOf renders the inputs and the receiver's events of one behaviour in the model's terms
+// (records of spec/ScRecv/ScRecvTrace): model sequence numbers, model request ids, message numbers.
+func traceOf(b *Beh, bi *baseInfo, evs []Ev) []any {
+	if len(b.Chunks) == 0 || contractTerm(b) != "" {
+		return nil
+	}
+	off := bi.seq[1] - uint32(int32(b.Chunks[0].Seq))
+	reqOf := map[uint32]int{}
+	for _, c := range b.Chunks {
+		reqOf[bi.req[c.ID]] = c.Req
+	}
+	msgOf := map[string]int{}
+	for m, d := range bi.digs {
+		msgOf[d] = m
+	}
+	reqs := []int{}
+	for m := range b.Plan {
+		reqs = append(reqs, m+1)
+	}
+	tr := []any{map[string]any{"ev": "reset", "mode": b.Mode, "reqs": reqs}}
+	for _, st := range b.Steps {
+		if st.In == "drop" || st.In == "hold" {
+			continue
+		}
+		c := Chunk{Kind: "X"}
+		if st.ID > 0 {
+			c = b.Chunks[st.ID-1]
+		}
+		tr = append(tr, map[string]any{"ev": "in", "via": st.In, "id": c.ID, "dmg": st.Dmg, "seq": c.Seq, "req": c.Req,
+			"kind": c.Kind, "msg": c.Msg, "part": c.Part})
+	}
+	for _, e := range evs {
+		if e.Ev == "acc" {
+			r, ok := reqOf[e.Req]
+			if !ok {
+				r = -1
+			}
+			tr = append(tr, map[string]any{"ev": "acc", "seq": int64(int32(e.Seq - off)), "req": r, "kind": e.Kind})
+		} else {
+			tr = append(tr, map[string]any{"ev": "ret", "err": e.Err != "", "msg": msgOf[e.Dig]})
+		}
+	}
+	return tr
 }
 
 const fenceTag = 9999
@@ -455,6 +506,14 @@ func shape(st Step) string {
 // judge compares the receiver's events with the contract; on a difference with the as-is
 // outcomes; the key names the move, the chunk kind and what the channel did instead.
 func judge(b *Beh, bi *baseInfo, evs []Ev, sawFence, fenced bool) runResult {
+	rr := judge0(b, bi, evs, sawFence, fenced)
+	if sawFence {
+		rr.trace = traceOf(b, bi, evs)
+	}
+	return rr
+}
+
+func judge0(b *Beh, bi *baseInfo, evs []Ev, sawFence, fenced bool) runResult {
 	obs := map[string]any{"events": evStrings(evs), "fence": sawFence}
 	wc, term, termStep := expected(b, bi, false)
 	if term != "" {
